@@ -86,7 +86,8 @@ class Cfg(object):
 
     def conf(self, grid_name=None):
         if self.kind == 'tile':
-            c = {'type': 'tile', 'url': 'http://%s/%%(z)s/%%(x)s/%%(y)s.png' % self.host, 'grid': grid_name}
+            # (the bounding box goes along: it has to be that of the tile, also where the tile reaches beyond the grid extent)
+            c = {'type': 'tile', 'url': 'http://%s/%%(z)s/%%(x)s/%%(y)s.png?b=%%(bbox)s' % self.host, 'grid': grid_name}
         else:
             req = {'url': 'http://%s/service' % self.host, 'layers': self.base, 'transparent': True}
             if self.ofmt:
@@ -392,12 +393,26 @@ class _Resp(io.BytesIO):
     pass
 
 
+TILE_GRIDS = {}       # host of a tile upstream -> its grid (filled by World)
+
+
 def parse_url(url):
     """an upstream URL -> the request as the model describes it (plus the raw numbers)"""
     u = urlsplit(url)
     m = re.match(r'^/(-?\d+)/(-?\d+)/(-?\d+)\.png$', u.path)
-    if m and not u.query:
-        return {'kind': 'tile', 'host': u.netloc, 'tile': [int(m.group(2)), int(m.group(3)), int(m.group(1))],
+    if m and (not u.query or re.match(r'^b=[-0-9.,e]+$', u.query)):
+        t = [int(m.group(2)), int(m.group(3)), int(m.group(1))]
+        g = TILE_GRIDS.get(u.netloc)
+        if u.query and g is not None and 0 <= t[2] < len(g['res']):
+            r = g['res'][t[2]]
+            x0 = g['bbox'][0] + t[0] * r * g['ts'][0]
+            y0 = (g['bbox'][3] - (t[1] + 1) * r * g['ts'][1]) if g['ul'] else (g['bbox'][1] + t[1] * r * g['ts'][1])
+            want = (x0, y0, x0 + r * g['ts'][0], y0 + r * g['ts'][1])
+            got = [float(v) for v in u.query[2:].split(',')]
+            if len(got) != 4 or any(abs(a - b) > 1e-6 for a, b in zip(got, want)):
+                return {'kind': 'other:tile request with the bounding box %s, the tile %s of the source grid is %s: %s' % (got, t, list(want), url),
+                        'host': u.netloc, 'layers': [], 'srs': '', 'fmt': '', 'bbox': None, 'size': None, 'dims': {}, 'tile': t}
+        return {'kind': 'tile', 'host': u.netloc, 'tile': t,
                 'layers': [], 'srs': '', 'fmt': '', 'bbox': None, 'size': None, 'dims': {}}
     q = {}
     for k, v in parse_qsl(u.query, keep_blank_values=True):
@@ -436,6 +451,7 @@ class World(object):
         self.urls = []
         self.hook = None            # called with every upstream URL (trace recording)
         self.tile_size = {c.host: tuple(c.grid['ts']) for c in sources if c.kind == 'tile'}
+        TILE_GRIDS.update({c.host: c.grid for c in sources if c.kind == 'tile'})
         self._H = H
         self._orig_open = H.HTTPClient.open
         world = self
